@@ -42,6 +42,7 @@ type FuncResult struct {
 	Lines       int
 	UnboundLoops []int
 	gen *Gen
+	sweepOnly bool
 }
 
 func (P *Program) NewGen(fn *ssa.Function, spec *FuncSpec) *Gen {
@@ -51,7 +52,7 @@ func (P *Program) NewGen(fn *ssa.Function, spec *FuncSpec) *Gen {
 		oblNames: map[string]int{}, loopOrd: map[*ssa.BasicBlock]int{}, loops: map[*ssa.BasicBlock]*loopInfo{},
 		strConsts: map[string]string{}, localsByName: map[string][]*ssa.Alloc{}, knownNonNil: map[string]bool{},
 		out: map[*ssa.BasicBlock]*State{}, usedSpecs: map[string]bool{}, cands: map[*ssa.BasicBlock][]*candInv{},
-		autoInvs: map[int][]Clause{}, variantAtHead: map[*ssa.BasicBlock]string{},
+		autoInvs: map[int][]Clause{}, variantAtHead: map[*ssa.BasicBlock]string{}, heapKind: map[string]Kind{},
 	}
 	return g
 }
@@ -74,7 +75,8 @@ func (P *Program) Verify(fn *ssa.Function, spec *FuncSpec, hooks *Hooks) (res *F
 				res.Obls = nil
 				return
 			}
-			panic(r)
+			res.Unsupported = fmt.Sprintf("internal: %v", r)
+			res.Obls = nil
 		}
 	}()
 	g.run()
@@ -125,6 +127,8 @@ func (g *Gen) run() {
 			g.notes = append(g.notes, "receiver assumed non-nil")
 		}
 	}
+	// the entry byte memory is declared up front so that replay queries can read parameter contents
+	g.entryByteMem = g.memSym(entry, types.Typ[types.Uint8], "", KInt)
 	for _, fv := range fn.FreeVars {
 		v := g.freshVal("fv_"+fv.Name(), fv.Type())
 		g.typeFacts(entry, v, "true")
@@ -155,9 +159,11 @@ func (g *Gen) run() {
 				g.knownNonNil[v.S] = true
 			}
 		}
+		env.atEntry = true
 		for _, cl := range g.spec.Requires {
 			g.assume("true", g.evalBool(env, g.P.expand(cl.E)))
 		}
+		env.atEntry = false
 		for _, cl := range g.spec.Assumes {
 			g.assume("true", g.evalBool(env, g.P.expand(cl.E)))
 			g.nAssume++
@@ -735,6 +741,7 @@ func (g *Gen) loopHead(b *ssa.BasicBlock, li *loopInfo, st *State) *State {
 	} else {
 		g.applyModSet(h, &ModSet{Names: li.modHeap})
 	}
+	g.loopFrame(st, h, li)
 	// 3. assume invariants
 	henv := g.loopEnv(h)
 	for _, cl := range invs {
@@ -852,4 +859,55 @@ func (P *Program) expandN(e *SExpr, depth int) *SExpr {
 		}
 	}
 	return &c
+}
+
+
+// loopFrame: in a function that is checked against a modifies clause every write inside the loop
+// targets a fresh or a declared location (that is a `frame` obligation of its own), so at the loop
+// head every location that existed at function entry and is not declared still holds the value it
+// had when the loop was entered.
+func (g *Gen) loopFrame(before, head *State, li *loopInfo) {
+	if !g.hasFrame() || li.modAll {
+		return
+	}
+	g.inFrameEval = true
+	defer func() { g.inFrameEval = false }()
+	locs := g.ownLocs()
+	for _, name := range sortedKeys(li.modHeap) {
+		srt, ok := g.heapSort[name]
+		if !ok || name == "brk" || name == "abrk" {
+			continue
+		}
+		nw, okN := head.heap.m[name]
+		if !okN {
+			continue
+		}
+		old := g.heapSym(before.heap, name)
+		if old == nw {
+			continue
+		}
+		switch {
+		case strings.HasPrefix(name, "M|") && strings.HasPrefix(srt, "(Array Int (Array Int"):
+			conds := []string{"(<= 0 a)", "(< a " + g.abrk(g.entry) + ")"}
+			for _, l := range locs {
+				if l.kind == "contents" {
+					conds = append(conds, not(eq("a", l.arr0)))
+				}
+			}
+			g.emit(fmt.Sprintf("(assert (forall ((a Int)) (! (=> %s (= (select %s a) (select %s a))) :pattern ((select %s a)))))", and(conds...), nw, old, nw))
+		case strings.HasPrefix(name, "H|") && strings.HasPrefix(srt, "(Array Int ") && !strings.HasPrefix(srt, "(Array Int (Array"):
+			conds := []string{"(< 0 p)", "(< p " + g.brk(g.entry) + ")"}
+			for _, l := range locs {
+				switch l.kind {
+				case "field":
+					if l.hname == name || strings.HasPrefix(name, l.hname+"#") {
+						conds = append(conds, not(eq("p", l.addr)))
+					}
+				case "object":
+					conds = append(conds, not(eq("p", l.addr)))
+				}
+			}
+			g.emit(fmt.Sprintf("(assert (forall ((p Int)) (! (=> %s (= (select %s p) (select %s p))) :pattern ((select %s p)))))", and(conds...), nw, old, nw))
+		}
+	}
 }
